@@ -305,7 +305,16 @@ def run_case(desc, ctx):
         th = ['--threads', [1, 1, 2, 3, 4][desc['seed'] % 5]]
         if len(names) >= 9 and variant == 'rel':
             res.count('files_with_9+_samples')
-        m = ctx.sh(b, 'map', ctx.path('ref.fa'), ctx.path('o.skf'), *flags_of(desc), *th)
+        if desc['seed'] % 4 == 2:
+            # output to a file that already exists and is longer than the new alignment
+            ctx.write('map.out', '>old\n' + 'ACGT' * (sum(len(c) for c in ref) + 50) + '\n>older\nAC\n')
+            m = ctx.sh(b, 'map', ctx.path('ref.fa'), ctx.path('o.skf'), *flags_of(desc), *th, '-o', ctx.path('map.out'))
+            if m.returncode == 0:
+                m = type('R', (), {'returncode': 0, 'stdout': open(ctx.path('map.out')).read(), 'stderr': m.stderr})()
+            if variant == 'rel':
+                res.count('output_file_existed')
+        else:
+            m = ctx.sh(b, 'map', ctx.path('ref.fa'), ctx.path('o.skf'), *flags_of(desc), *th)
         if variant == 'chk':
             res.count('chk_runs')
             if m.returncode != 0 and 'overflow' in m.stderr:
